@@ -1228,6 +1228,10 @@ _mk_solver_orig = sym._mk_solver
 def _mk_solver(kind, ctx=None):
     if kind == 'sat':
         return z3.Then(z3.Tactic('simplify', ctx=ctx), z3.Tactic('aig', ctx=ctx), z3.Tactic('sat', ctx=ctx)).solver()
+    if kind == 'lra2':      # SMT core with the older simplex implementation: ~3x faster on the ite-heavy linear sums of C02-O1
+        s = z3.Solver(ctx=ctx)
+        s.set('arith.solver', 2)
+        return s
     return _mk_solver_orig(kind, ctx)
 
 
